@@ -46,6 +46,9 @@ type MemFS struct {
 
 var _ fsutil.FS = &MemFS{}
 
+// Stats returns the stats the view announces, in walk order.
+func (m *MemFS) Stats() []*types.Stat { return m.stats() }
+
 func (m *MemFS) stats() []*types.Stat {
 	if m.RawStats != nil {
 		return m.RawStats
